@@ -109,7 +109,20 @@ def repo_frame(tb):
 
 
 def exc_sig(exc):
+    """exception type + innermost repository frame (+ the grammar action / public entry that led there)"""
     fr = repo_frame(exc.__traceback__)
+    if fr is not None:
+        outer = None
+        for fs in traceback.extract_tb(exc.__traceback__):
+            fn = fs.filename
+            if fn.startswith(REPO + '/') and not fn.startswith(REPO + '/sly/'):
+                rel = os.path.relpath(fn, REPO)
+                if rel.endswith('parser.py') and (rel, fs.name) != fr:
+                    outer = (rel, fs.name)
+        s = f'{type(exc).__name__}@{fr[0]}:{fr[1]}'
+        if outer:
+            s += f'<{os.path.basename(outer[0])}:{outer[1]}'
+        return s
     if fr is None:
         fs = traceback.extract_tb(exc.__traceback__)
         last = fs[-1] if fs else None
